@@ -268,6 +268,15 @@ func (ipv6 *IPv6) DecodeFromBytes(data []byte, df gopacket.DecodeFeedback) error
 	}
 
 	pEnd := int(ipv6.Length)
+	if ipv6.HopByHop != nil {
+		// Length counts the hop-by-hop header, which has just been taken off
+		// the payload: without this every complete packet with a hop-by-hop
+		// header was flagged truncated (and kept 8 trailing bytes too many).
+		pEnd -= int(ipv6.hbh.ActualLength)
+		if pEnd < 0 {
+			return fmt.Errorf("IPv6 length %d smaller than its hop-by-hop header (%d)", ipv6.Length, ipv6.hbh.ActualLength)
+		}
+	}
 	if pEnd > len(ipv6.Payload) {
 		df.SetTruncated()
 		pEnd = len(ipv6.Payload)
